@@ -37,6 +37,8 @@ CHECKS = {
     "C26": _ds("Composite/Serial/SingleAssignment/MultipleAssignment disposables: single-thread random call histories compared call-by-call with a sequential model (items include falsy empty CompositeDisposables), and 2-3 thread programs under the deterministic scheduler (bounded-preemption enumeration of hand-written programs, random/PCT for generated ones) with exactly-once accounting and a 'disposed while held' hook inside each item's dispose()."),
     "C27": _ds("RefCountDisposable: single-thread random histories of get-dependent / dispose-dependent / dispose-primary compared call-by-call with a sequential model, and 2-3 thread programs under the deterministic scheduler (bounded-preemption enumeration for hand-written programs, random/PCT for generated ones); monitors: underlying dispose count <= 1 always and == 1 at quiescence, release hook checks primary and all live dependents were disposed, count >= 0. Only bounded histories are claimed.",
                note=_DS_NOTE + " The 'abstract model over unbounded histories' part of the quantifier is not claimed (out of reach of runtime monitoring)."),
+    "C29": _ds("Generated finite schedules (batches of 0..400 same-instant actions, bounded self-rescheduling, cancellations) on VirtualTimeScheduler/TestScheduler/HistoricalScheduler run through start()/advance_to()/advance_by() with the scheduler's lock replaced by an instrumented lock (self re-acquisition raises) and a logical step budget over the scheduler's source lines; monitors: run returns, actions run == scheduled - cancelled, drained scheduler restarts.",
+               technique="runtime monitoring with instrumented locks and a logical step budget (sys.monitoring LINE events): termination restated as bounded progress"),
     "C40": _vt("using / finally_action / do_finally / do_* stages over generated inner timelines x dispose points (every distinct virtual time and from inside on_next) x exception positions (resource factory, observable factory, inner source, callbacks) x re-subscription; monitors count resource disposals and finally-actions per subscription and compare the do_* traces with the input trace."),
     "C41": _vt("Contract table of the bridges (from_future with asyncio and concurrent futures, to_future, await, run(), start, to_async, from_callback) exercised with generated sequences, future outcomes (result / exception / cancellation / unsubscribe first) and callback argument lists; asyncio on a private loop; run() on real threads with values-only verdicts (watchdog = inconclusive).",
                note="Trusted: harness probes; asyncio event loop; for run(): the default NewThreadScheduler on real threads (no timing verdicts).",
